@@ -108,9 +108,16 @@ func (ex *Executor) nilCheck(st *State, ref *Term, what string, pos token.Pos) {
 	if ok == TTrue {
 		return
 	}
-	if ex.AssumeNonNil != nil && ex.AssumeNonNil(ref) {
-		st.Fact(ok)
-		return
+	if ex.AssumeNonNil != nil {
+		// wiring assumption on every leaf of an ite-merged reference
+		for _, leaf := range iteLeaves(ref) {
+			if ex.AssumeNonNil(leaf) {
+				st.Fact(Neq(leaf, IntLit(0)))
+			}
+		}
+		if ex.AssumeNonNil(ref) {
+			return
+		}
 	}
 	ex.safetyQueue(st, ok, what, pos)
 }
@@ -618,7 +625,7 @@ func (ex *Executor) indexValue(st *State, base, idxV Value, t types.Type, pos to
 func (ex *Executor) loadElem(st *State, a *symElemAddr, t types.Type) Value {
 	switch {
 	case a.Sym != nil:
-		return Select(a.Sym.Arr, a.Idx)
+		return Select(ex.symArr(st, a.Sym), a.Idx)
 	case a.Bytes != nil:
 		return Builtin("str.to_code", SInt, Builtin("str.at", SStr, a.Bytes.T, a.Idx))
 	case a.Buf != nil:
@@ -866,6 +873,13 @@ func (ex *Executor) sliceSym(st *State, b *SymSliceV, lo, hi *Term, pos token.Po
 	// capacity is not modelled: hi <= len is required (stricter than Go,
 	// which allows hi <= cap); stated in DESIGN 2.3
 	ex.safetyQueue(st, And(Le(IntLit(0), lo), Le(lo, hi), Le(hi, b.Len)), "slice bounds out of range", pos)
+	if b.Cell != 0 {
+		off := lo
+		if b.Off != nil {
+			off = Add(b.Off, lo)
+		}
+		return &SymSliceV{Cell: b.Cell, Off: off, Arr: b.Arr, Len: Sub(hi, lo), ElemT: b.ElemT}
+	}
 	if l, ok := lo.IntVal(); ok && l == 0 {
 		return &SymSliceV{Arr: b.Arr, Len: hi, ElemT: b.ElemT}
 	}
@@ -1054,6 +1068,18 @@ func liveEntries(ex *Executor, st *State, md *MapData) []MapEntry {
 
 func (ex *Executor) storeElem(st *State, a *symElemAddr, v Value) {
 	switch {
+	case a.Sym != nil && a.Sym.Cell != 0:
+		if vt, ok := v.(*Term); ok {
+			cur, _ := st.Cells[a.Sym.Cell].(*Term)
+			if cur != nil && elemSort(cur.S) == vt.S {
+				idx := a.Idx
+				if a.Sym.Off != nil {
+					idx = Add(a.Sym.Off, idx)
+				}
+				st.Cells[a.Sym.Cell] = Store(cur, idx, vt)
+				return
+			}
+		}
 	case a.S != nil:
 		arr, _ := st.Cells[a.S.Cell].(*ArrayV)
 		if arr == nil {
@@ -1072,4 +1098,35 @@ func (ex *Executor) storeElem(st *State, a *symElemAddr, v Value) {
 		}
 	}
 	st.Note("store through symbolic element address")
+}
+
+// symArr returns the array term currently denoted by a symbolic slice
+// (element i of the slice is select(symArr, i)).
+func (ex *Executor) symArr(st *State, s *SymSliceV) *Term {
+	if s.Cell == 0 {
+		return s.Arr
+	}
+	cur, _ := st.Cells[s.Cell].(*Term)
+	if cur == nil {
+		return s.Arr
+	}
+	if s.Off != nil {
+		if n, ok := s.Off.IntVal(); !ok || n != 0 {
+			return App("shift!"+elemSort(cur.S), cur.S, cur, s.Off)
+		}
+	}
+	return cur
+}
+
+// newSymSlice allocates a mutable symbolic slice with backing array arr.
+func (ex *Executor) newSymSlice(st *State, arr, ln *Term, elem types.Type) *SymSliceV {
+	cell := ex.newCell(st, arr)
+	return &SymSliceV{Arr: arr, Cell: cell, Len: ln, ElemT: elem}
+}
+
+func iteLeaves(t *Term) []*Term {
+	if t.Op == "ite" && !t.Sym && len(t.Args) == 3 {
+		return append(iteLeaves(t.Args[1]), iteLeaves(t.Args[2])...)
+	}
+	return []*Term{t}
 }
